@@ -142,6 +142,13 @@ void throw_error () {
 
 static volatile int in_error = 0;
 static volatile int in_mudlib_error_handler = 0;
+/* the error the mudlib handler was called for: reported by the driver if the handler itself fails */
+static char error_being_handled[512];
+
+static void note_error_being_handled (const char *err) {
+  strncpy (error_being_handled, err, sizeof (error_being_handled) - 1);
+  error_being_handled[sizeof (error_being_handled) - 1] = 0;
+}
 
 static void debug_message_with_location (const char *err) {
   if (current_object && current_prog)
@@ -215,12 +222,14 @@ void error_handler (const char *err) {
         {
           debug_message ("{}\t***** error in mudlib error handler (caught)");
           debug_message_with_location (err);
+          debug_message ("{}\t***** while it handled: %s", error_being_handled);
           dump_trace (g_trace_flag);
           in_mudlib_error_handler = 0;
         }
       else
         {
           in_mudlib_error_handler = 1;
+          note_error_being_handled (err);
           mudlib_error_handler (err, 1);
           in_mudlib_error_handler = 0;
         }
@@ -256,6 +265,7 @@ void error_handler (const char *err) {
     {
       debug_message ("{}\t***** error in mudlib error handler");
       debug_message_with_location (err);
+      debug_message ("{}\t***** while it handled: %s", error_being_handled);
       dump_trace (g_trace_flag);
       in_mudlib_error_handler = 0;
     }
@@ -263,6 +273,7 @@ void error_handler (const char *err) {
     {
       in_mudlib_error_handler = 1;
       in_error = 0;
+      note_error_being_handled (err);
       mudlib_error_handler (err, 0);
       in_error = 1;
       in_mudlib_error_handler = 0;
